@@ -114,6 +114,7 @@ type world struct {
 	dInit   time.Duration
 	nMirror int
 	cfaults []ClassFault
+	l2      bool // RegClient layer: bodies may be consumed long after the response arrived
 }
 
 func (w *world) prio(h string) int { return w.spec[h].Prio }
@@ -311,7 +312,10 @@ func (w *world) classify(e *rm.Entry) entryClass {
 			if l.At >= rem {
 				return entryClass{kind: "noeffect"}
 			}
-			return entryClass{kind: "transient", certain: true}
+			// the client notices a cut body when it reads that far: at L1 that is right after the
+			// response (nothing else is sent in between); RegClient operations stream bodies while
+			// they send other requests, so the moment of the failure is not known there
+			return entryClass{kind: "transient", certain: !w.l2}
 		}
 		if l.At == 0 {
 			// every non-blob GET body of the model is non-empty JSON; a cut at 0 is
